@@ -50,6 +50,7 @@ struct VSpec {
     for (int i = 0; i < MAXK; ++i) h = vh::hmix(h, (uint64_t)s.v[i]);
     return h;
   }
+  bool equal(const State& a, const State& b) const { return memcmp(a.v, b.v, sizeof a.v) == 0; }
   int alternatives(const Op&) const { return 1; }
   bool apply(State& s, const Op& o, int = 0) const {
     int& cur = s.v[o.key];
@@ -188,7 +189,7 @@ struct VT<managed_ptr<VNode<R>, R>, R> {
     v = nullptr;
   }
   static int id_of(VNode<R>* const& v) {
-    vrt::check_access(v, sizeof(VNode<R>), false);
+    vrt::check_access(&v->id, sizeof(int) + sizeof(uint32_t), false); // the payload only: the reclaimer owns the intrusive list fields
     if (v->canary != 0xC0FFEE) vrt::fail("use_after_destroy", "managed value at %p has been destroyed", (void*)v);
     return v->id;
   }
